@@ -198,6 +198,8 @@ def apply_op(b: Built, op: dict) -> str:
             b.objs[op['h']].set_attributes(**{key: decode_value(val, b.objs) for key, val in op['kw'].items()})
         elif k == 'origin_ref':
             b.objs[op['h']].origin_reference = op['value']
+        elif k == 'fhid':
+            b.lfs[op['lf']].file_header.header_id = op['value']      # the header's public attribute, edited afterwards
         elif k == 'sul':
             for key, val in op['kw'].items():
                 setattr(b.df.storage_unit_label, key, val)
